@@ -19,8 +19,10 @@ type purityStream struct{}
 
 func init() { register(purityStream{}) }
 
-func (purityStream) Name() string          { return "purity" }
-func (purityStream) TrivialTags() []string { return []string{"nodes0", "nodes1", "nodes2", "nodes3", "nodes4"} }
+func (purityStream) Name() string { return "purity" }
+func (purityStream) TrivialTags() []string {
+	return []string{"nodes0", "nodes1", "nodes2", "nodes3", "nodes4"}
+}
 
 const purityRoot = "/tmp/cdi-verif-purity"
 
